@@ -93,6 +93,10 @@ func (ex *Exec) callFunction(fr *Frame, st *State, fn *ssa.Function, args []Val,
 	// library specs
 	if sp, ok := specs[name]; ok {
 		ex.trusted[name] = true
+		// call-site clauses may name package-level library functions as "pkg.Func" (cbor.Unmarshal)
+		if ex.specMode == 0 && fn.Signature.Recv() == nil && fn.Object() != nil && fn.Object().Pkg() != nil && !explicitEvent[name] {
+			ex.checkCallSites(fr, st, fn.Object().Pkg().Name()+"."+fn.Name(), args, pos)
+		}
 		return sp(ex, fr, st, &callCtx{fn: fn, args: args, argVals: argVals, pos: pos})
 	}
 	isMod := fn.Pkg != nil && isModulePkg(fn.Pkg.Pkg) || (fn.Object() != nil && isModulePkg(fn.Object().Pkg())) || (fn.Parent() != nil)
@@ -887,4 +891,10 @@ func readOnlyLibMethod(f *ssa.Function) bool {
 		return f.Signature.Recv() != nil
 	}
 	return false
+}
+
+
+// explicitEvent: library functions whose spec raises its own call-site event under the same name.
+var explicitEvent = map[string]bool{
+	"crypto/rand.Read": true, "crypto/ed25519.Sign": true, "crypto/ed25519.Verify": true, "crypto/ed25519.VerifyWithOptions": true,
 }
